@@ -198,7 +198,7 @@ func c04Generate(c *Ctx, idx int) *c04Case {
 		var size, q float64
 		switch cs.Grid {
 		case "int":
-			size, q = pickOne(r, []float64{8, 16, 50, 100, 1000}), 1
+			size, q = pickOne(r, []float64{8, 16, 50, 100, 1000, 30000, 1e5}), 1
 			if cs.Class == "sliver" || cs.Class == "circle" {
 				size = pickOne(r, []float64{1024, 4096, 10000})
 			}
@@ -214,6 +214,9 @@ func c04Generate(c *Ctx, idx int) *c04Case {
 			}
 		default:
 			size, q = r.LogR(0.1, 1000)*math.Sqrt2, 0
+			if r.P(0.3) { // models in micrometres / metre-sized parts in millimetres
+				size = r.LogR(1000, 1e6) * math.Sqrt2
+			}
 		}
 		for i := range v {
 			v[i] = v[i].MulScalar(size)
@@ -245,6 +248,22 @@ func c04Generate(c *Ctx, idx int) *c04Case {
 		}
 		if q != 0 {
 			off = v2.Vec{X: math.Round(off.X*q) / q, Y: math.Round(off.Y*q) / q}
+		}
+		// generated domain: |coordinate| <= 2^22. Beyond 2^23 the spacing of float64 exceeds the library's absolute 1e-9
+		// clip tolerance (see the pinned witness c04KeyHuge); such polygons are not generated.
+		for {
+			worst := 0.0
+			for i := range v {
+				q := v[i].Add(off)
+				worst = math.Max(worst, math.Max(math.Abs(q.X), math.Abs(q.Y)))
+			}
+			if worst <= c04MaxCoord {
+				break
+			}
+			off = off.MulScalar(0.5)
+			if q != 0 {
+				off = v2.Vec{X: math.Round(off.X*q) / q, Y: math.Round(off.Y*q) / q}
+			}
 		}
 		for i := range v {
 			v[i] = v[i].Add(off)
@@ -674,6 +693,44 @@ var c04Pins = []struct {
 		[]v2.Vec{{X: 1, Y: -5}, {X: 5, Y: -1.7}, {X: -1, Y: 5}}, v2.Vec{X: 2.8, Y: -2.5249999999999999}},
 }
 
+const c04MaxCoord = 1 << 22
+
+// c04KeyHuge: known finding, identified by this input (a square standing on a corner, half diagonal 53443.09..., centred
+// 1.1e7 from the origin).
+const c04KeyHuge = "polygon2d-diamond-r53443-centre-1.1e7"
+
+func c04RunHuge(c *Ctx) {
+	v := []v2.Vec{{X: 613403.3872786951, Y: -1.0997662078452526e+07}, {X: 559960.294356089, Y: -1.094421898552992e+07},
+		{X: 506517.2014334828, Y: -1.0997662078452526e+07}, {X: 559960.294356089, Y: -1.1051105171375131e+07}}
+	ctr, rad := v2.Vec{X: 559960.294356089, Y: -1.0997662078452526e+07}, 53443.092922606134
+	fast, slow, g, err := c04Build(v)
+	if err != nil || !c04Simple(v) {
+		c.Inconclusive(fmt.Sprintf("pinned huge-coordinate case unusable: %v", err))
+		return
+	}
+	bad, n := 0, 0
+	var w *c04Witness
+	for i := 0; i <= 40; i++ {
+		for j := 0; j <= 40; j++ {
+			p := v2.Vec{X: ctr.X + rad*1.5*(float64(i)/20-1), Y: ctr.Y + rad*1.5*(float64(j)/20-1)}
+			f, s, o := fast.Evaluate(p), slow.Evaluate(p), c04Eval(v, p)
+			n++
+			if kind := c04Judge(f, s, o, c04Tol(g.scale, o)); kind != "" {
+				bad++
+				if w == nil {
+					w = &c04Witness{Case: &c04Case{Index: -100, Class: "pinned-huge", N: len(v), V: v}, P: p, Cat: "pinned", Fast: f, Slow: s, Inside: o.inside, Dist: o.dist, Tol: c04Tol(g.scale, o)}
+				}
+			}
+		}
+	}
+	c.Eval(n)
+	c.Count("queries/pinned-huge", int64(n))
+	if bad > 0 {
+		c.Violate(c04KeyHuge, fmt.Sprintf("pinned-huge-coordinates Polygon2D of the square (613403.39,-10997662.08) (559960.29,-10944218.99) (506517.20,-10997662.08) (559960.29,-11051105.17): %d of %d grid queries differ from the brute-force distance "+
+			"(first p=(%.17g,%.17g) fast=%.17g slow=%.17g): coordinates beyond 2^23, where float64 spacing exceeds the absolute 1e-9 clip tolerance of Box2.lineIntersect, lose clipped segments", bad, n, w.P.X, w.P.Y, w.Fast, w.Slow), w)
+	}
+}
+
 func c04RunPins(c *Ctx) {
 	for i, pin := range c04Pins {
 		fast, slow, g, err := c04Build(pin.v)
@@ -700,6 +757,7 @@ func checkC04(c *Ctx) {
 		"(by content hash) with >=1 vertex-level query AND >=1 split-line query AND both inside and outside oracle answers observed. Tolerance: 1e-9 x (max(size, max|coord|) + distance) " +
 		"for magnitudes; sign compared only if the oracle distance exceeds it. Violations are labelled (finding key) by input-side preconditions only: vertex within 1e-9 of " +
 		"a split line, edge through a split corner, query next to a split line that has a non-identical twin.")
+	c.Assume("generated polygons have |coordinate| <= 2^22 (sizes up to 1.4e6); beyond 2^23 float64 spacing exceeds the library's absolute 1e-9 clip tolerance - one pinned witness of that limitation is a known finding")
 	c.Assume("polygons with edges shorter than 1e-6 x size are outside the generated domain (VertexToLine closes the loop with an absolute 1e-9 tolerance)")
 	c.Assume("oracle distance is float64 brute force (rounding ~1e-15 relative); inside/outside is exact")
 	if err := c04SelfTest(c); err != nil {
@@ -707,6 +765,7 @@ func checkC04(c *Ctx) {
 		return
 	}
 	c04RunPins(c)
+	c04RunHuge(c)
 	nPoly := c.Pick(6000, 30000)
 	maxPts := c.Pick(4000, 20000)
 	parallelFor(nPoly, func(i int) {
